@@ -467,7 +467,10 @@ def _init_htpasswd_context():
 
     # hack to remove dups and sort into preferred order
     preferred = schemes[:3] + ["apr_md5_crypt"] + schemes
-    schemes = sorted(set(schemes), key=preferred.index)
+    # NOTE: plaintext accepts every string, so it must stay behind the crypt() schemes.
+    schemes = sorted(
+        set(schemes), key=lambda name: (name == "plaintext", preferred.index(name))
+    )
 
     # create context object
     return CryptContext(
